@@ -2,11 +2,13 @@ from check import run_diff_property
 
 CFG = dict(
     streams=[('shutdown', 60, 800)],
-    oracle_ops={'shutdown'},
+    oracle_ops={'shutdown', 'binsig'},
     rule=("real stack: 0-3 idle keep-alive HTTP/1.1 connections, 0-3 open HTTP/2 connections, 0-3 clients stalled mid-handshake, "
           "optionally one HTTP/1.1 request in flight at a blocked backend; context cancelled (once / twice / before Serve is called); "
           "observed: Serve's return value and latency, the listening socket, a connection attempted afterwards, the idle connections, "
-          "whether the in-flight exchange had ended when Serve returned. non-trivial = every scenario"),
+          "whether the in-flight exchange had ended when Serve returned. Plus the BINARY: fingerproxy.Run() in a child process (flags, "
+          "signal.NotifyContext, ListenAndServe) with an idle keep-alive connection and an exchange in flight, stopped with SIGTERM "
+          "and with SIGINT: exit by itself with status 0, idle connection closed, exchange completed. non-trivial = every scenario"),
     assumptions=[
         "net/http.Server.Shutdown closes idle connections and returns when no connection is active (assumed contract)",
         "request contexts derive from the server context, so cancellation also ends in-flight exchanges (they finish with an error status)",
